@@ -50,6 +50,12 @@ pub struct Case {
     pub batch: usize,
     pub val: Data,
     pub ops: Vec<Op>,
+    /// `Some(i)`: the history starts on the same network *without* dropout; before operation i
+    /// the public `layers` field is replaced by the layers of a freshly built network with the
+    /// configured dropout (same depth - "a new head for fine-tuning") and the optimizer is
+    /// attached again. Whatever the library remembered about the old layers is stale then.
+    #[serde(default)]
+    pub transplant_at: Option<usize>,
 }
 
 #[derive(Clone, Debug, Default)]
@@ -123,13 +129,31 @@ fn apply(r: &mut Ready, case: &Case, op: &Op, ctx: &mut Ctx, step: &mut Step) {
     }
 }
 
+fn start(case: &Case) -> Ready {
+    match case.transplant_at {
+        Some(_) => prepare(case, &case.net.without_dropout()),
+        None => prepare(case, &case.net),
+    }
+}
+
+fn transplant_if_due(r: &mut Ready, case: &Case, index: usize) {
+    if case.transplant_at == Some(index) {
+        let donor = case.net.build();
+        r.net.layers = donor.layers;
+        if let Some(opt) = &case.net.optimizer {
+            r.net.set_optimizer(opt.to_lib());
+        }
+    }
+}
+
 /// The history under test; one `Step` per operation.
 fn execute(case: &Case, ctx: &mut Ctx) -> Vec<Step> {
     ctx.op();
-    let mut r = prepare(case, &case.net);
+    let mut r = start(case);
     let mut steps = Vec::new();
-    for op in &case.ops {
+    for (index, op) in case.ops.iter().enumerate() {
         let mut step = Step::default();
+        transplant_if_due(&mut r, case, index);
         apply(&mut r, case, op, ctx, &mut step);
         step.flags = training_flags(&r.net);
         step.params = parameters(&r.net);
@@ -141,10 +165,12 @@ fn execute(case: &Case, ctx: &mut Ctx) -> Vec<Step> {
 
 /// Parameters after replaying ops[..i] unchanged and then `learn(k, validation = None)`.
 fn params_after_prefix(case: &Case, i: usize, k: i32, ctx: &mut Ctx) -> Vec<Vec<f32>> {
-    let mut r = prepare(case, &case.net);
-    for op in &case.ops[..i] {
+    let mut r = start(case);
+    for (index, op) in case.ops[..i].iter().enumerate() {
+        transplant_if_due(&mut r, case, index);
         apply(&mut r, case, op, ctx, &mut Step::default());
     }
+    transplant_if_due(&mut r, case, i);
     apply(&mut r, case, &Op::Learn { epochs: k, with_val: false, tol: None, print: None }, ctx, &mut Step::default());
     parameters(&r.net)
 }
@@ -190,6 +216,7 @@ impl Property for C09 {
             "dropout_in_feedback",
             "learn_with_validation",
             "empty_training_set",
+            "layers_replaced_mid_history",
             "learn_with_zero_epochs",
             "no_top_level_trainable_layer",
             "learn_then_learn",
@@ -292,7 +319,9 @@ impl Property for C09 {
         }
         let (clock, _) = draw_clock(rng);
         let env = draw_env(rng, clock, true);
-        Case { net, env, train, batch, val, ops }
+        // (the transplanted layers must fit the old ones: no headless networks here)
+        let transplant_at = if !headless && !scale_case && ops.len() >= 2 && rng.chance(0.06) { Some(rng.range(1, ops.len() - 1)) } else { None };
+        Case { net, env, train, batch, val, ops, transplant_at }
     }
 
     fn check(&self, case: &Case, stats: &mut Stats) -> Outcome {
@@ -321,6 +350,7 @@ impl Property for C09 {
         stats.probe("dropout_in_feedback", in_fb);
         let learns: Vec<usize> = case.ops.iter().enumerate().filter(|(_, o)| matches!(o, Op::Learn { .. })).map(|(i, _)| i).collect();
         stats.probe("empty_training_set", case.train.len() == 0);
+        stats.probe("layers_replaced_mid_history", case.transplant_at.is_some());
         stats.probe("learn_with_zero_epochs", case.ops.iter().any(|o| matches!(o, Op::Learn { epochs: 0, .. })));
         stats.probe("no_top_level_trainable_layer", case.net.layers.iter().all(|l| matches!(l, LayerCfg::Feedback { .. } | LayerCfg::Maxpool { .. })));
         stats.probe("learn_with_validation", case.ops.iter().any(|o| matches!(o, Op::Learn { with_val: true, .. })));
@@ -506,11 +536,25 @@ impl Property for C09 {
             c.env.lenient = true;
             c
         };
+        if case.transplant_at.is_some() {
+            let mut c = lenient(case);
+            c.transplant_at = None;
+            out.push(c);
+        }
         // drop operations (keeping at least one)
         if case.ops.len() > 1 {
             for i in (0..case.ops.len()).rev() {
                 let mut c = lenient(case);
                 c.ops.remove(i);
+                // keep the transplant in front of the operation it preceded
+                if let Some(t) = c.transplant_at {
+                    if i < t {
+                        c.transplant_at = Some(t - 1);
+                    }
+                    if c.transplant_at.map(|t| t >= c.ops.len()).unwrap_or(false) {
+                        c.transplant_at = None;
+                    }
+                }
                 out.push(c);
             }
         }
